@@ -83,7 +83,7 @@ def cmd_check(i, tier='quick', inplace=False, seed='1'):
         if r.returncode: print('patch does not apply: ' + r.stdout); return 2
     else:
         wt = worktree('chk-' + i, patch); env['VERIF_REPO'] = wt; env['VERIF_BUILD'] = os.path.join(SCR, 'build-' + i)
-    caught = []
+    caught = []; keys = []
     try:
         for p in props:
             t0 = time.time()
@@ -92,12 +92,37 @@ def cmd_check(i, tier='quick', inplace=False, seed='1'):
             print('%s vs %s [%s]: rc=%d, %d VIOLATION line(s), %.0fs' % (i, p, tier, r.returncode, len(v), time.time() - t0))
             for l in r.stdout.splitlines():
                 if l.startswith(('VIOLATION', '   sub=', 'HARNESS-FAILURE', 'INCONCLUSIVE')): print('   ', l[:300])
-            if r.returncode == 1 and v: caught.append(p)
+            if r.returncode == 1 and v:
+                caught.append(p)
+                import re as _re
+                for l in r.stdout.splitlines():
+                    m = _re.match(r'\s+sub=(\S+) key=(\S+)', l)
+                    if m and len(keys) < 4: keys.append('%s: %s / %s' % (p, m.group(1), m.group(2)))
     finally:
         if inplace: sh(['git', '-C', '/repo', 'checkout', '--', '.'])
         else:
             shutil.rmtree(os.path.join(SCR, 'build-' + i), ignore_errors=True); drop(wt)
-    print('SEEDED', i, 'caught by ' + ','.join(caught) if caught else 'MISSED'); return 0 if caught else 1
+    print('SEEDED', i, 'caught by ' + ','.join(caught) if caught else 'MISSED')
+    record(i, caught, tier, keys)
+    return 0 if caught else 1
+
+RESULTS = os.path.join(SEEDED, 'RESULTS.json')
+def record(i, caught, tier, keys):
+    try: d = json.load(open(RESULTS))
+    except Exception: d = {}
+    head = sh(['git', '-C', '/repo', 'log', '--format=%h', '-1']).stdout.strip()
+    d[i] = dict(caught_by=caught, tier=tier, first_keys=keys, repo_head=head, when=time.strftime('%Y-%m-%d %H:%M'))
+    json.dump(d, open(RESULTS, 'w'), indent=1, sort_keys=True)
+
+def cmd_report():
+    d = json.load(open(RESULTS)); rows = []
+    for i in sorted(os.listdir(SEEDED)):
+        mp = os.path.join(SEEDED, i, 'meta.json')
+        if not os.path.exists(mp): continue
+        m = meta(i); r = d.get(i, {})
+        rows.append('| %s | %s | %s | %s | %s |' % (i, m.get('title', '').replace('|', '/'), (m.get('needs_to_manifest', '')[:160]).replace('|', '/').replace('\n', ' '),
+                    ', '.join(r.get('caught_by', [])) or ('**MISSED**' if r else 'not run'), '; '.join(k.split(': ', 1)[1] for k in r.get('first_keys', [])[:2])))
+    print('| id | change | needs | caught by (quick) | first keys |\n|---|---|---|---|---|'); print('\n'.join(rows))
 
 def main():
     ap = argparse.ArgumentParser(); ap.add_argument('cmd'); ap.add_argument('id', nargs='?'); ap.add_argument('--tier', default='quick'); ap.add_argument('--inplace', action='store_true'); ap.add_argument('--seed', default='1')
@@ -106,6 +131,7 @@ def main():
     if a.cmd == 'baseline-clean': cmd_baseline_clean(); sys.exit(0)
     if a.cmd == 'demo': sys.exit(cmd_demo(a.id))
     if a.cmd == 'check': sys.exit(cmd_check(a.id, a.tier, a.inplace, a.seed))
+    if a.cmd == 'report': cmd_report(); sys.exit(0)
     if a.cmd == 'all':
         rows = []
         for i in sorted(os.listdir(SEEDED)):
